@@ -73,6 +73,13 @@ class RecordException(
         # the pickled value later for optimization (so that it's not pickled twice). It's important
         # to note that custom exceptions might not necessarily raise a PickleError, hence the
         # generic Exception catch.
+        # The exception type itself may not be picklable either (a class defined inside a function
+        # for example), in which case it has to be removed too.
+        try:
+            pickle.dumps(self.type)
+        except Exception:
+            return (RecordException, (None, None, None))
+
         try:
             pickled_value = pickle.dumps(self.value)
         except Exception:
